@@ -25,6 +25,14 @@ var candidateScripts = []struct{ key, hex, note string }{
 	{"endfinally-outside-finally-with-pending-exception", "3b0009" + "11" + "3a" + "3d0b" + "21" + "21" + "21" + "3b0400" + "3f" + "21" + "12" + "40" + "13" + "40",
 		"TRY finally F; PUSH1; THROW; ...; F: TRY catch C; ENDFINALLY; C: PUSH2 RET -- reference pops the inner TRY and rethrows (FAULT)"},
 	{"setitem-range-error-inside-try", "3b0900" + "c2" + "10" + "10" + "d0" + "3d04" + "45" + "11" + "40", "TRY catch; NEWARRAY0 PUSH0 PUSH0 SETITEM; ...; catch: DROP PUSH1 RET"},
+	{"struct-equals-budget-accounting", "020000010088db2811bf4ac24e50cf10ce97",
+		"struct [ByteString(65536)] EQUAL its APPEND-clone -- reference charges 1 for the root pair, so 65536 > 65535 left: FAULT; Go: true"},
+	{"struct-equals-budget-accounting", "02409c000088db2811bf02409c000088db2811bf12bf4ac24e50cf10ce97",
+		"struct [[BS(40000)],[BS(40000)]] EQUAL its clone -- reference has ONE byte budget for the whole comparison: FAULT; Go restarts it per nested struct: true"},
+	{"struct-equals-budget-accounting", "0058c64a4a4a4a4a4a4a4a4a4a4a4a4a4a4a4a4a4a4a4a4a4a0017bf0058c64a4a4a4a4a4a4a4a4a4a4a4a4a4a4a4a4a4a4a4a4a4a0017bf97",
+		"s1 = 23 refs to NEWSTRUCT(88), s2 likewise (distinct): 1+23+23*88 = 2048 pairs -- reference allows 2048 pairs: true; Go faults at the 2047th field visit"},
+	{"struct-equals-traversal-order", "01c26388db2802409c000088db2812bf01c263884a01c16311d0db2802409c000088db2812bf5097",
+		"[BS(40000), BS(25538)] vs same sizes, last field differs -- reference compares the LAST field first: false; Go goes first-to-last and exhausts the budget: FAULT"},
 	{"pushdata4-negative-length", "0effffffff", "PUSHDATA4 with length 0xffffffff"},
 }
 
